@@ -25,7 +25,7 @@ LEVEL_TEXT = ("Scenarios restricted to the v1 vocabulary (discrete/continuous re
               "be identical. Runs with the grid section omitted / optional sections omitted must equal the explicit ones.")
 LEVEL_NOTE = "The TOML text is produced by the harness's own writer and read by ladim through tomli; with diffusion > 0 the tracker's rng is re-seeded identically by the harness in every run so that outputs are comparable exactly."
 RULE = ("case = scenario spec; renderings yaml2, toml2, yaml1 (+ grid-omitted, sections-omitted variants). Non-trivial: several release times or continuous release and moving water; distinct by spec.")
-MANDATORY = ["yaml_anchor_and_alias", "steps_not_multiple_of_output_period", "wildcard_names_of_unequal_length", "v1_file_names_in_files_section", "v1_discrete_with_release_frequency", "configure_dicts_compared", "plugin_gridforce", "version_key_omitted", "yaml2_vs_toml2", "yaml2_vs_yaml1", "grid_omitted_pairs", "wildcard_forcing", "optional_sections_omitted_pairs", "continuous", "discrete", "subgrid", "diffusion_seeded",
+MANDATORY = ["v1_grid_file_omitted_pairs", "yaml_anchor_and_alias", "steps_not_multiple_of_output_period", "wildcard_names_of_unequal_length", "v1_file_names_in_files_section", "v1_discrete_with_release_frequency", "configure_dicts_compared", "plugin_gridforce", "version_key_omitted", "yaml2_vs_toml2", "yaml2_vs_yaml1", "grid_omitted_pairs", "wildcard_forcing", "optional_sections_omitted_pairs", "continuous", "discrete", "subgrid", "diffusion_seeded",
              "particle_variable_column", "values_compared"]
 ASSUMPTIONS = ["only what the v1 vocabulary can express"]
 MIN_CASES_PER_PROCESS = 4  # several runs share one interpreter: state leaking between runs (module caches, shared defaults) becomes observable
@@ -323,6 +323,12 @@ def run_case(case: dict[str, Any], wd: Path) -> dict[str, Any]:
     else:
         del g["grid"]
     variants.append(("nogrid", g, "yaml"))
+    if not sp["plugin_gridforce"]:
+        g1 = copy.deepcopy(R["yaml1"])  # the legacy spelling without a grid file: the first forcing file (also behind a wildcard) is the grid file
+        g1["files"]["output_file"] = str(wd / "out_yaml1_nogrid.nc")
+        g1["gridforce"].pop("gridfile", None)
+        g1["files"].pop("gridfile", None)
+        variants.append(("yaml1_nogrid", g1, "yaml"))
     if not sp["ibm"]:
         o = copy.deepcopy(R["yaml2"])  # optional sections omitted
         o["output"]["filename"] = str(wd / "out_omit.nc")
@@ -343,13 +349,13 @@ def run_case(case: dict[str, Any], wd: Path) -> dict[str, Any]:
         outs[name] = read_all(Path(conf["output"]["filename"] if "output" in conf else conf["files"]["output_file"]))
     # --- the configuration dictionaries returned by configure() carry the same simulation
     ref_conf = confs.get("yaml2")
-    for other in ("toml2", "yaml1", "nogrid", "omit", "empty"):
+    for other in ("toml2", "yaml1", "nogrid", "yaml1_nogrid", "omit", "empty"):
         if other in confs and isinstance(ref_conf, dict):
             sit["configure_dicts_compared"] = sit.get("configure_dicts_compared", 0) + 1
             if not isinstance(confs[other], dict):
                 continue  # reported through the failed run
             want = dict(ref_conf)
-            if other == "nogrid":  # an omitted grid section means: forcing module + first forcing file
+            if other in ("nogrid", "yaml1_nogrid"):  # an omitted grid section means: forcing module + first forcing file
                 want["grid_file"] = str(Path(str(w["files"][0])).resolve())
             diff = {k: (want[k], confs[other][k]) for k in want if want[k] != confs[other][k]}
             if diff:
@@ -360,7 +366,7 @@ def run_case(case: dict[str, Any], wd: Path) -> dict[str, Any]:
     sit["version_key_omitted"] = int(not sp["version_key"])
     base = outs.get("yaml2")
     if base is not None:
-        for other, sname in (("toml2", "yaml2_vs_toml2"), ("yaml1", "yaml2_vs_yaml1"), ("nogrid", "grid_omitted_pairs")):
+        for other, sname in (("toml2", "yaml2_vs_toml2"), ("yaml1", "yaml2_vs_yaml1"), ("nogrid", "grid_omitted_pairs"), ("yaml1_nogrid", "v1_grid_file_omitted_pairs")):
             if other in outs:
                 msg = same_output(base, outs[other])
                 sit[sname] = sit.get(sname, 0) + 1
